@@ -19,6 +19,11 @@ def owner(why):
 def run(ctx, prop, n=None):
     if prop in ("C07",):
         ctx.design("Coop", "Coop_mc.cfg", timeout=1500)
+        # hand-over design model: eager / cooperative / next-gen protocols, and the mutant that reports a revocation too early
+        for proto in ("eager", "cooperative", "nextgen"):
+            ctx.design("GroupHandover", "GroupHandover_%s.cfg" % proto, timeout=900, tag="handover_" + proto)
+        m = ctx.tlc("GroupHandover", "GroupHandover_mut.cfg", workers=4, timeout=600, tag="handover_mutant", allow_fail=True)
+        ctx.notes["design_mutant_ack_before_revoke_ends_rejected"] = bool(m.violated)
     mode = "commits" if prop == "C09" else "members"
     n = n or ((150 if mode == "members" else 300) if ctx.tier == "quick" else (1500 if mode == "members" else 3000))
     out = os.path.join(ctx.work, "group_trace_raw.ndjson")
